@@ -110,5 +110,14 @@ def to_source(t: dict, parent) -> str:
 
     head = ""
     if parent is not None:
-        head = t.get("pre", "") + "{% extends '" + parent + "' %}"
+        o, c = EXTENDS_WRAPS[t.get("wrap") or "none"]
+        head = t.get("pre", "") + o + "{% extends '" + parent + "' %}" + c
     return head + items_src(t["items"])
+
+
+# the extends tag may stand inside a block that is entered (a conditionally chosen layout): the result is the same
+EXTENDS_WRAPS = {
+    "none": ("", ""), "if": ("{% if true %}", "{% endif %}"), "unless": ("{% unless false %}", "{% endunless %}"),
+    "else": ("{% if false %}{% else %}", "{% endif %}"), "case": ("{% case 1 %}{% when 1 %}", "{% endcase %}"),
+    "for": ("{% for q in (1..1) %}", "{% endfor %}"), "with": ("{% with q: 1 %}", "{% endwith %}"), "if-if": ("{% if true %}{% if x %}", "{% endif %}{% endif %}"),
+}
